@@ -58,3 +58,43 @@ package conversion
 //@ trusted func (Chain).RulesWithSimilarFromVersion
 //@   modifies nothing
 //@   ensures fresh(result)
+
+// ---- the HTTP layer of the conversion webhook ----
+
+// Funcspec of the event handler installed by the operator (ShellOperator.conversionEventHandler,
+// proved there not to modify the request): ghost copies of its results.
+//@ ghost lastResp *Response
+//@ ghost lastErr error
+//@ trusted func WebhookManager.EventHandlerFn
+//@   modifies lastResp, lastErr
+//@   ensures lastResp == result0 && lastErr == result1 && (result1 == nil ==> result0 != nil)
+
+//@ pure errors.New
+
+// C15: Success carries as many objects as were requested; a handler error or a failedMessage
+// gives an error (answered as Failed, with the hook's message).
+//@ func (*WebhookHandler).handleReviewRequest
+//@   prop C15
+//@   requires h.Manager != nil && request != nil
+//@   modifies lastResp, lastErr
+//@   ensures [success/count]  result1 == nil ==> result0 != nil && len(result0.ConvertedObjects) == len(request.Objects)
+//@   ensures [success/uid]    result1 == nil ==> result0.UID == request.UID
+//@   ensures [success/status] result1 == nil ==> result0.Result.Status == "Success"
+//@   ensures [success/only-if] result1 == nil ==> lastErr == nil && lastResp.FailedMessage == ""
+//@   ensures [handler-error]  h.Manager.EventHandlerFn != nil && lastErr != nil ==> result1 == lastErr
+//@   ensures [failed-message] h.Manager.EventHandlerFn != nil && lastErr == nil && lastResp.FailedMessage != "" ==> result1 == errors.New(lastResp.FailedMessage)
+//@   ensures [no-handler]     h.Manager.EventHandlerFn == nil ==> result1 != nil
+
+//@ func errored
+//@   prop C15
+//@   requires err != nil
+//@   ensures [failed] result != nil && result.Result.Status == "Failure"
+
+// C15: Put registers the rule as a one-step path and in the from->to index.
+//@ func (*Chain).Put
+//@   prop C15
+//@   requires c.PathsCache != nil && c.BaseFromToIndex != nil
+//@   requires forall(k, string, has(c.BaseFromToIndex, k) ==> c.BaseFromToIndex[k] != nil)
+//@   modifies mapof(c.PathsCache), mapof(c.BaseFromToIndex), all(mapof(c.BaseFromToIndex[rule.FromVersion]))
+//@   ensures [path]     has(c.PathsCache, rule) && len(c.PathsCache[rule]) == 1 && c.PathsCache[rule][0] == rule
+//@   ensures [declared] has(c.BaseFromToIndex, rule.FromVersion) && has(c.BaseFromToIndex[rule.FromVersion], rule.ToVersion)
